@@ -577,9 +577,8 @@ func (e *Engine) enterChecked(st *State, fr *frame, b *ssa.BasicBlock) bool {
 	if st.dead() {
 		return false
 	}
-	// feasibility is only looked at where it is needed for termination: on back edges, and inside
-	// loop bodies that have already gone round many times
-	if fr.visits[b.Index] > 0 && fr.visits[fr.block.Index] > 0 && (b.Dominates(fr.block) || fr.visits[fr.block.Index] > 64) {
+	// feasibility is only looked at where it is needed for termination: on back edges
+	if fr.visits[b.Index] > 0 && fr.visits[fr.block.Index] > 0 && b.Dominates(fr.block) {
 		if !e.feasible(st) {
 			e.stats.Pruned++
 			return false
